@@ -110,6 +110,10 @@ func runCallback(rep *vh.Report, env vh.Env, worlds []*world, i int) {
 	}
 	// the flows: browsers A and B on one upstream
 	fu := w.ups[r.Intn(len(w.ups))]
+	onRewrite := (i/(len(worlds)*len(cbKinds)))%3 == 1
+	if onRewrite {
+		fu = w.rw[(i/(len(worlds)*len(cbKinds))/3+i)%len(w.rw)]
+	}
 	noEmail := redeem == "empty-email" || redeem == "no-email-field"
 	if noEmail && r.Intn(3) > 0 {
 		// only a rule that does not read the e-mail could admit such an answer: the group upstream
@@ -147,6 +151,15 @@ func runCallback(rep *vh.Report, env vh.Env, worlds []*world, i int) {
 		for {
 			o := w.ups[r.Intn(len(w.ups))]
 			if o != fu {
+				host = o.host
+				break
+			}
+		}
+	case x >= 6 && x <= 8 && fu.route != "":
+		// the callback arrives on another concrete host of the same rewrite route
+		hostRel = "sibling-host-of-route"
+		for k := 1; k < len(w.rw); k++ {
+			if o := w.rw[(indexOfRw(w, fu)+k)%len(w.rw)]; o.route == fu.route && o.host != fu.host {
 				host = o.host
 				break
 			}
@@ -546,7 +559,7 @@ func runCallback(rep *vh.Report, env vh.Env, worlds []*world, i int) {
 			kc.BoundTo, kc.SessEmail = s.AuthorizedUpstream, s.Email
 			if s.AuthorizedUpstream != host {
 				good = false
-				rep.Violate(streamCB, i, "callback: session-not-bound-to-request-host", fmt.Sprintf("callback on %s set a session authorised for %q", host, s.AuthorizedUpstream), kc)
+				rep.Violate(streamCB, i, "callback: session-not-bound-to-request-host"+routeSig(hu), fmt.Sprintf("callback on %s set a session authorised for %q", host, s.AuthorizedUpstream), kc)
 			}
 			if redeemOK && s.Email != p.Email {
 				good = false
@@ -555,6 +568,12 @@ func runCallback(rep *vh.Report, env vh.Env, worlds []*world, i int) {
 		}
 		if good {
 			rep.Count("b_sessions_bound_and_verified", 1)
+			if hu != nil && hu.route != "" {
+				rep.Count("b_sessions_bound_and_verified_rewrite_route", 1)
+			}
+		}
+		if s != nil && hu != nil && phase == "" && (hu.route != "" || i%8 == 0) {
+			w.probeBinding(rep, streamCB, i, hu, sv, kc)
 		}
 		// return address
 		if rs.Status != 302 {
